@@ -1837,11 +1837,24 @@ fn sub_text_cross(c: &mut Case) -> CaseResult {
     let len = c.tape.len(16, 60);
     let mut col = gen_duality_column(&mut c.tape, &a, &b, len, c.strict);
     if !c.strict && b == int(16, true) {
-        // C13f22: atoi 3.1.0 treats five digits of a negative i16 as overflow-free: "-32769".."-99999" wrap
+        // C13f22: atoi 3.1.0 treats five digits of a negative i16 as overflow-free: the first five digits are
+        // accumulated with wrapping arithmetic, so every negative text whose leading five digits exceed 32768 wraps there
+        // ("-32769".."-99999" always give a wrong value; longer ones such as "-6586368" do when the remaining digits
+        // happen not to overflow the wrapped prefix: 263 818 texts down to -65 568 768 are accepted with a wrong value)
+        let wraps = |x: i128| -> bool {
+            if x > -32_769 {
+                return false;
+            }
+            let mut m = x.unsigned_abs();
+            while m >= 100_000 {
+                m /= 10;
+            }
+            m > 32_768
+        };
         let mut hit = false;
         for v in col.iter_mut() {
             if let LValue::Int(x) = v {
-                if (-99_999..=-32_769).contains(x) {
+                if wraps(*x) {
                     *x = -100_000 - (*x).rem_euclid(1000);
                     hit = true;
                 }
